@@ -5,7 +5,8 @@
    * the Read / BufRead / Write / Seek / set_len / flush contract, phrased on an
      abstract pair (A, c) = (a growable byte vector, a cursor), sharing no
      mechanics with the handle (no buffer, no window, no dirty marker);
-   * a trace language (hop), its run on the model, and its run on the contract.
+   * a trace language (hop), its run on the model, and its run on the contract;
+   * the looping forms read_exact / read_to_end / write_all on the model (by fuel).
    No proofs live here; proofs/HandleProofs.v proves that the model refines the
    contract for every store satisfying store_contract. *)
 From Cfb.model Require Import Base Handle.
@@ -134,13 +135,6 @@ Inductive cruns : list byte * N -> list hop -> list hout -> list byte * N -> Pro
 | cr_cons st o r st1 os rs st2 :
     cstep st o r st1 -> cruns st1 os rs st2 -> cruns st (o :: os) (r :: rs) st2.
 
-(* The looping forms of std::io on the contract: total functions of (A, c). *)
-Definition read_exact_spec (A : list byte) (c n : N) : option (list byte) :=
-  if n <=? lenN A - c then Some (takeN n (dropN c A)) else None.   (* None = UnexpectedEof *)
-Definition read_to_end_spec (A : list byte) (c : N) : list byte := dropN c A.
-Definition write_all_spec (A : list byte) (c : N) (bs : list byte) : list byte * N :=
-  (spliceN A c bs, c + lenN bs).
-
 (* ------------------------------------------------------------------------- *)
 (* The store contract and the shape of the refinement statements              *)
 (* ------------------------------------------------------------------------- *)
@@ -216,6 +210,12 @@ Definition op_refines {X} (id : N)
   | Panic _ => False
   | OutOfFuel => False
   end.
+
+(* The simulation relation of the trace theorem: the handle h over store state s
+   represents the abstract state st = (A, c). *)
+Definition handle_rel (id : N) (s : St) (h : handle) (st : list byte * N) : Prop :=
+  h_id h = id /\
+  exists V, content s id V /\ HInv V h /\ absV h V = fst st /\ h_position h = snd st.
 
 (* ---- running a trace on the model ---- *)
 Definition run_op (h : handle) (o : hop) (s : St) : St * (handle * hout) :=
